@@ -21,6 +21,19 @@ DCS_FNS = [r'^dcs::set_\w+::\w+::(instruction|fill_params_buf|new|with_all|as_u8
 NOT_APPLICABLE = {}
 
 PROPS = {
+    'C10': {
+        'level_text': "Unbounded proof by representation invariant: Verus proves set_orientation (generic Model/transport) sends exactly one 0x36 whose byte is the MIPI encoding of (kept colour order, new orientation, kept refresh order), stores the new orientation and re-establishes Display::wf (madctl == encoding of options, window fits the framebuffer), on which every observer and drawing contract depends - so any history of calls is covered by induction. Kani cross-checks reported orientation/size/bounding box, equality with a freshly built state and placement of a following set_pixel for framebuffers 240x320 and 65535x65535, all options symbolic.",
+        'level_note': "Assumes the Interface trait contract for third-party transports. 'Behaves as built with that orientation' is equality of the abstract state (options, madctl) that all other contracts depend on; drawing programs are covered through those contracts (C01-C04), not enumerated.",
+        'technique': 'Verus representation invariant on Display + Kani complete harnesses with native replay',
+        'verus': {'cfgs': ['default'],
+                  'fns': [r'^Display::(set_orientation|orientation|canary_wf)$', r'^graphics::Display::size$', r'^options::ModelOptions::display_size$',
+                          r'^dcs::set_address_mode::SetAddressMode::(with_orientation|from|fill_params_buf|instruction)$',
+                          r'^vf::lemma_(with_orientation_replaces|madctl_setters|field_bits|bits_u8)$']},
+        'kani': {'groups': [{'quick': ['c10_set_orientation_240x320'], 'thorough': ['c10_set_orientation_max']}]},
+        'pairs': {r'set_orientation|orientation$|size$': ['c10_set_orientation_240x320']},
+        'functions': ['Display::set_orientation', 'Display::orientation', 'OriginDimensions::size', 'ModelOptions::display_size', 'SetAddressMode::with_orientation'],
+        'assumptions': ['Interface trait contract (generic DI)', 'Kani instantiations: framebuffers 240x320 and 65535x65535; Verus: every Model'],
+    },
     'C14': {
         'level_text': 'Unbounded proof. Verus discharges, for the real text of SetAddressMode::{new,with_*,from,fill_params_buf} and MemoryMapping::from_orientation, postconditions equating the byte with a spec function written from the MIPI bit layout, plus bit-vector lemmas (disjoint masks, commutation, idempotence, bits 1-0 zero) over all 256 bytes. Kani re-proves the same statements on the compiled crate over all 256 x 2 x 8 x 4 inputs and all 6 setter orders (loop-free, complete) and supplies counterexamples.',
         'level_note': 'Trusted: Verus/Z3, Kani/CBMC, extractor rewrite table, derived Default (assume_specification, executed for real by the Kani harness). The meaning of the three orientation bits is tied to pixel placement by lemma vf::lemma_mapping_places_pixels (C01).',
